@@ -14,7 +14,7 @@ MODULE = "TriompheModel.Props.C09"
 EXTRA = ["TriompheModel.Props.Gates", "TriompheModel.WM.Consume"]
 TAGS = ["C09"]
 WEIGHTS = dict(tryUnwrap=18, unwrapOrClone=16, intoInner=8, tryUnique=16, clone=18, conv=16, create=16, drop=8)
-PROGRAMS_QUICK = ["try_unwrap_vs_drop"]
+PROGRAMS_QUICK = ["try_unwrap_vs_drop", "sole_owner_gates"]
 
 
 def schedule_part(ctx, prop, programs_quick):
